@@ -115,7 +115,7 @@ func (c c11Config) mapping() (seq.Mapping, string, []string) {
 	return m, jsonPath, fields
 }
 
-var c11Alphabet = []string{"a", "A", "1", "_", "*", "-", "/", " ", `"`, `\`, "é", "İ", "K", "²", "\xff"}
+var c11Alphabet = []string{"a", "A", "1", "_", "*", "-", "/", " ", `"`, `\`, "é", "İ", "K", "²", "\xff", "\r", "\n"}
 
 func c11JSONKind(raw string) string {
 	switch {
@@ -140,6 +140,12 @@ func jsonString(v string) string {
 		switch v[i] {
 		case '"', '\\':
 			b.WriteByte('\\')
+		case '\r':
+			b.WriteString(`\r`)
+			continue
+		case '\n':
+			b.WriteString(`\n`)
+			continue
 		}
 		b.WriteByte(v[i])
 	}
@@ -498,6 +504,8 @@ func valueClass(v string) string {
 			add("quote-or-backslash")
 		case r == ' ':
 			add("space")
+		case r == '\r' || r == '\n':
+			add("line-break")
 		}
 	}
 	if len(cls) == 0 {
@@ -642,7 +650,7 @@ func TestVerifC11(t *testing.T) {
 	r.Sample(c11Case{Config: cfgs[0], Value: "A /é", Query: `f:"a /é"`})
 	ev := r.Get("evaluations")
 	r.Finish(t, "model_checking",
-		fmt.Sprintf("all values of length <=%d over the 15-rune alphabet {a A 1 _ * - / space \" \\ é İ(lower-case has another width) K(Kelvin) ²(number, not digit) \\xff(invalid)} x mapping {keyword,text,path,exists,text+keyword multi-type,object->keyword,object->text+keyword multi-type,nil}, written as YAML and read by the real seq.ReadMapping, x per-type size limit {default,3} x MaxTokenSize {3,72} x case-sensitive x partial indexing; each value indexed by the real Ingestor.ProcessDocuments (metas decoded); derived queries: whole value (keyword), every maximal word within the token limit (text), every leading path (path), _exists_ (all), each in every quoting style (double, single, raw, bare when lexable), parsed by ParseSeqQL and evaluated on the emitted tokens; the double-quoted and bare spellings and the existence queries are also parsed by the legacy parser (ParseQuery) and evaluated the same way. Documents with three keyword fields carrying every ordered pair of non-string JSON values (true/false/null/numbers/arrays/objects): each field is indexed under its own JSON spelling. Over-limit values: skipped => only existence is required; partial => the cut prefix is the subject. distinct_nontrivial = distinct (config, value, query) found", maxLen),
+		fmt.Sprintf("all values of length <=%d over the 17-rune alphabet {CR LF a A 1 _ * - / space \" \\ é İ(lower-case has another width) K(Kelvin) ²(number, not digit) \\xff(invalid)} x mapping {keyword,text,path,exists,text+keyword multi-type,object->keyword,object->text+keyword multi-type,nil}, written as YAML and read by the real seq.ReadMapping, x per-type size limit {default,3} x MaxTokenSize {3,72} x case-sensitive x partial indexing; each value indexed by the real Ingestor.ProcessDocuments (metas decoded); derived queries: whole value (keyword), every maximal word within the token limit (text), every leading path (path), _exists_ (all), each in every quoting style (double, single, raw, bare when lexable), parsed by ParseSeqQL and evaluated on the emitted tokens; the double-quoted and bare spellings and the existence queries are also parsed by the legacy parser (ParseQuery) and evaluated the same way. Documents with three keyword fields carrying every ordered pair of non-string JSON values (true/false/null/numbers/arrays/objects): each field is indexed under its own JSON spelling. Over-limit values: skipped => only existence is required; partial => the cut prefix is the subject. distinct_nontrivial = distinct (config, value, query) found", maxLen),
 		map[string]any{
 			"states":                        int64(len(values)) * r.Get("configs"),
 			"transitions":                   ev,
